@@ -249,6 +249,26 @@ func enumerate(shard, nshards int, yield func(Case)) {
 			}
 		}
 	}
+	// every graph of callback path-item references over three paths of one document: the callback of
+	// each path names one of the paths (or none), 4^3 graphs, in two spellings of the path order
+	for g := 0; g < 64; g++ {
+		for _, names := range [][3]string{{"/a", "/b", "/c"}, {"/c", "/a", "/b"}} {
+			idx++
+			if idx%nshards != shard {
+				continue
+			}
+			paths := M{}
+			for i := 0; i < 3; i++ {
+				op := M{"responses": M{"200": M{"description": "d"}}}
+				if t := (g >> (2 * i)) & 3; t < 3 {
+					op["callbacks"] = M{"cb": M{"{$request.body#/u}": M{"$ref": "#/paths/" + esc(names[t])}}}
+				}
+				paths[names[i]] = M{"post": op}
+			}
+			b, _ := json.Marshal(M{"openapi": "3.0.3", "info": M{"title": "t", "version": "1"}, "paths": paths})
+			yield(Case{Files: map[string][]byte{"/w/root.json": b}, Root: "/w/root.json", Entry: []string{"data", "datawithpath"}[g%2], AllowExt: g%4 < 2})
+		}
+	}
 	for i, files := range extCycles {
 		for _, entry := range []string{"uri", "datawithpath"} {
 			idx++
